@@ -10,7 +10,9 @@ LEVEL = "exploration"
 QUICK_RUNS = 4000
 THOROUGH_SECONDS = 600
 RULE_TEXT = ("merge_generators over 1-4 sources and debounced_sorted_prefix over one source; item gaps drawn from a grid that "
-             "contains debounce_seconds and max_window_seconds exactly and +-1/1024 s, zero gaps and same-instant ties; a source "
+             "contains debounce_seconds and max_window_seconds exactly and +-1/1024 s, zero gaps and same-instant ties, plus 0-3 bare "
+             "event-loop hops after each gap and optional synchronous stalls of the source across a deadline (arrivals inside the "
+             "signal-to-marker hand-off); a source "
              "may raise at item i; Task-set iteration order (hash salt) varied per run. Non-trivial: (merge) >=2 sources "
              "produced items at the same instant, or (debounce) >=1 item arrived within one tick of the flush instant; "
              "distinct = abstract trace shape.")
@@ -118,7 +120,11 @@ def _run_debounce(tape):
     pool = list(keys)
     while pool:
         order.append(pool.pop(tape.draw(len(pool), "key")))
-    plan = [(order[i], tape.choice(gaps, "gap")) for i in range(n)]
+    # extra event-loop hops (bare yields) after the timed gap: arrivals land 0-3 loop iterations after a same-instant timer,
+    # i.e. inside the hand-off between the debouncer's signal and the completion marker
+    # ... optionally preceded by a synchronous stall of the source (event loop blocked across a deadline)
+    plan = [(order[i], tape.choice(gaps, "gap"), tape.choice([0, 0, 1, 2, 3], "hops"),
+             tape.choice([0, 0, 0, T, 8 * T, 32 * T], "stall")) for i in range(n)]
     tail = tape.choice([0, T, deb, mx], "tail")
 
     async def scenario(world):
@@ -126,9 +132,14 @@ def _run_debounce(tape):
         arrivals = []
 
         async def inner():
-            for key, gap in plan:
+            for key, gap, hops, stall in plan:
                 if gap:
                     await asyncio.sleep(gap)
+                if stall:
+                    world.loop.stall(stall)
+                    world.fault("loop-stall")
+                for _ in range(hops):
+                    await asyncio.sleep(0)
                 arrivals.append(key)
                 world.trace.log("produce", key=key)
                 yield key
@@ -143,6 +154,7 @@ def _run_debounce(tape):
 
     def check(world, res):
         out, arrivals = res
+        world._nt = False
         if sorted(out) != sorted(arrivals) or len(out) != len(set(out)):
             world.violate("C29.debounce-multiset", f"output {out} is not a permutation of the inputs {arrivals}",
                           how="missing" if len(out) < len(arrivals) else "duplicate-or-extra")
